@@ -71,20 +71,22 @@ def fam_parse(sess):
     doc = doc_multipliers(prog)
     for u, v in doc.items():
         table[u] = v
-    sess.bounds[fam] = {'units': sorted(table), 'letter cases': 'lower, UPPER, Capitalised, mIXED', 'numbers': 'n, n + 1/2, n + 1/4, n + 1/16 for all n < min(2^20, 2^51 / multiplier) (every product an exact double)', 'space': 'with and without'}
+    sess.bounds[fam] = {'units': sorted(table), 'letter cases': 'lower, UPPER, Capitalised, mIXED', 'numbers': 'n, n + 1/2, n + 1/4, n + 1/16, n + 1/4096 for all n < min(2^20, 2^51 / multiplier) (every product an exact double)', 'space': 'with and without'}
     ex = sess.executor(unwind=4, solver_timeout_ms=30000)
     pf = prog.find_free('parse_filesize')
     quick = sess.tier == 'quick'
     for unit in sorted(table):
         viol = {}
         paths = [0]
-        forms = [(sp, frac, space) for sp in (spellings(unit)[:2] if quick else spellings(unit)) for frac in (('', '.5', '.0625') if quick else ('', '.5', '.25', '.0625'))
+        forms = [(sp, frac, space) for sp in (spellings(unit)[:2] if quick else spellings(unit)) for frac in (('', '.5', '.0625', '.000244140625') if quick else ('', '.5', '.25', '.0625', '.000244140625'))
                  for space in (('',) if quick else ('', ' '))]
         for sp, frac, space in forms:
             def run(ctx, sp=sp, frac=frac, space=space):
                 n = ctx.fresh_bv('n', 64)
                 ctx.ghost['exact_f64'] = True
                 bound = min(1 << 20, (1 << 51) // table[unit])      # so that every intermediate product is an exact double
+                if frac == '.000244140625':
+                    bound = min(bound, ((1 << 62) // table[unit]) // 4096)    # ... and its numerator over 4096 fits the 64-bit encoding
                 ctx.assume(ULT(n, BitVecVal(bound, 64)))
                 lit = NumStr(n, False, '', frac + space + sp)
                 return n, ctx.call_fn(pf, [lit])
@@ -102,7 +104,7 @@ def fam_parse(sess):
                     return
                 n, res = out[1]
                 mult = table[unit]
-                num, den = {'': (0, 1), '.5': (1, 2), '.25': (1, 4), '.0625': (1, 16)}[frac]
+                num, den = {'': (0, 1), '.5': (1, 2), '.25': (1, 4), '.0625': (1, 16), '.000244140625': (1, 4096)}[frac]
                 want = (n * den + num) * mult / den if False else None
                 # exact arithmetic: (n + num/den) * mult  truncated toward zero
                 wantv = z3.UDiv((n * den + num) * mult, BitVecVal(den, 64))
@@ -133,7 +135,7 @@ def fam_parse(sess):
             sess.discharged('parse unit %r: %d spellings/forms, every n < 2^20: number x %d' % (unit, len(forms), table[unit]), family=fam, queries=paths[0])
 
 
-COERCE = {'2.0': 2, '2.0b': 2, '1.5B': 1, '1k': 1024, '.5k': 512, '0.5k': 512, '1.5kb': 1500, '.25mib': 262144, '.5 k': 512, '2': 2, '3kib': 3072, '.5M': 524288, '2tb': 2 * 10 ** 12}
+COERCE = {'2.0': 2, '2.0b': 2, '1.5B': 1, '1.001kb': 1001, '1k': 1024, '.5k': 512, '0.5k': 512, '1.5kb': 1500, '.25mib': 262144, '.5 k': 512, '2': 2, '3kib': 3072, '.5M': 524288, '2tb': 2 * 10 ** 12}
 
 
 def fam_coerce(sess):
@@ -162,12 +164,12 @@ def fam_coerce(sess):
     viol = {k: v for k, v in bad.items() if v.startswith('to_int')}
     other = {k: v for k, v in bad.items() if not v.startswith('to_int')}
     for lit, what in list(viol.items())[:3]:
-        sess.violated('coerce %r' % lit, 'coerce/' + ('leading-dot' if lit.startswith('.') else 'literal'), 'Variant(%r): %s, documented value %d' % (lit, what, COERCE[lit]),
+        sess.violated('coerce %r' % lit, 'coerce/' + ('leading-dot' if lit.startswith('.') else 'inexact-decimal' if lit == '1.001kb' else 'literal'), 'Variant(%r): %s, documented value %d' % (lit, what, COERCE[lit]),
                       {'literal': lit}, cli_replay_parse(lit.replace(' ', ''), COERCE[lit]), fam)
     for lit, what in other.items():
         sess.inconclusive('coerce %r' % lit, what, fam)
-    if not bad:
-        sess.discharged('coerce: %d literal spellings reach to_int / to_float as their documented byte count' % len(COERCE), family=fam, queries=len(COERCE))
+    if len(bad) < len(COERCE):
+        sess.discharged('coerce: %d literal spellings reach to_int / to_float as their documented byte count' % (len(COERCE) - len(bad)), family=fam, queries=len(COERCE) - len(bad))
 
 
 # ------------------------------------------------------------------------------------------------ format
